@@ -13,5 +13,5 @@ wait
 grep -v '^#' out.txt; grep -i warn err.txt
 echo "a: $(cat t/a)   b: $(cat t/b)"
 bad=0
-if grep -q "^    $T/t/b" out.txt && ! cmp -s t/a t/b; then echo "DEFECT: a and b are reported as identical, they differ"; bad=1; fi
+if grep -qx "    $T/t/b" out.txt && ! cmp -s t/a t/b; then echo "DEFECT: a and b are reported as identical, they differ"; bad=1; fi
 cd /; rm -rf "$T"; exit $bad
